@@ -252,6 +252,45 @@ def check(ctx: Ctx) -> None:
                     if isinstance(n, ast.ImportFrom) and (n.module or "").startswith("execnet") and n.module != "execnet.gateway_base":
                         ob.violation(f, calls[0], "the import bootstrap imports another execnet module than gateway_base")
         ob.require(nsites == 3, "3 sendexec call sites expected")
+        # names the socket fragment *probes* (`try: N / except NameError: N = ...`) are optional injections: the fallback only
+        # fires if the server leaves N unbound when it has nothing to offer -- binding N to None defeats it
+        probed: set[str] = set()
+        fsock = repo.func("gateway_bootstrap.bootstrap_socket")
+        scall = [c for c in repo.calls_in(fsock) if isinstance(c.func, ast.Name) and c.func.id == "sendexec"][0]
+        try:
+            ftree = ast.parse("\n".join(p for p in fragment_source(sendexec_parts(repo, fsock, scall)) if p is not None))
+        except SyntaxError:
+            ftree = ast.Module(body=[], type_ignores=[])
+        for n in ast.walk(ftree):
+            if isinstance(n, ast.Try) and any(h.type is not None and "NameError" in unparse(h.type) for h in n.handlers):
+                for b in n.body:
+                    if isinstance(b, ast.Expr) and isinstance(b.value, ast.Name):
+                        probed.add(b.value.id)
+        from ..terms import NONE as _N, evaluator as _evs, tv as _tv
+        evs = _evs(repo, fe)
+        n_exec = 0
+        for (pth, st_) in evs.run(limit=4000):
+            for e in st_.events:
+                if e.kind == "call" and e.callee in ("exec", "exec_") and len(e.args) >= 2:
+                    n_exec += 1
+                    ns = e.args[1]
+                    bound: list[tuple[str, tuple, int]] = []
+                    if ns[0] == "dict":
+                        bound += [(kv[0][1], kv[1], e.ncond) for kv in ns[1:] if kv[0][0] == "const"]
+                    for s_ in st_.events[:st_.events.index(e)]:
+                        if s_.kind == "store" and s_.recv == ns and s_.key is not None and s_.key[0] == "const":
+                            bound.append((s_.key[1], s_.value, s_.ncond))
+                    for (name, val, nc) in bound:
+                        if name in probed:
+                            known = dict(st_.cond[:e.ncond])
+                            isnone = _tv(("cmp", "is", val, _N), known)
+                            ob.site(fe, e.node, f"optional injection {name!r} is bound only to a real object", value_is_None=isnone)
+                            if isnone is not False:
+                                ob.violation(fe, e.node, f"the socket server binds {name!r} in the namespace of the bootstrap fragment even when it has no value for it (None): the fragment's "
+                                                         f"`try: {name} / except NameError` fallback never fires and the stand-alone server (no execnet importable) cannot serve a gateway",
+                                             construct=f"{name} injected as None")
+        ob.require(n_exec >= 1, "socket server: exec of the received source with a namespace not found")
+        ob.note(f"names probed by the socket fragment through NameError: {sorted(probed)}")
         if "clientsock" not in injected:
             ob.violation(ss, fe.node, "the socket server no longer injects `clientsock` into the namespace of the bootstrap fragment", construct="no clientsock injection")
         # sendexec ships repr(source) + newline; the remote line is exec(eval(readline()))
